@@ -22,6 +22,6 @@ Definition m_create := create H_enc.
 
 Extraction "model.ml" lru_observe m_execute_q m_damage_store
   parse_query format_query subst max_ph norm wf_query
-  m_sql_query m_prepared_query m_serve m_d_run d_init wf_ops m_create normalize_header
+  m_sql_query m_prepared_query m_serve m_d_run d_init wf_ops m_create normalize_header ingest
   m_build_store m_open_index m_execute m_get_schema m_add_rows_mem m_add_rows_big
   spec_execute spec_schema.
